@@ -1,6 +1,8 @@
 import JediModel.Lemmas.Validate
 import JediModel.Lemmas.ValidateSpec
 import JediModel.Model.ApiHelpers
+import JediModel.Lemmas.IterArgs
+import JediModel.Lemmas.IterArgsSpec
 /-! C01 — the position contract of the query API: `validate_line_column`, stated over the
 constants the translator reads from `jedi/api/helpers.py` / `jedi/api/__init__.py`. -/
 namespace JediModel.Props.C01
@@ -250,6 +252,106 @@ theorem cutValue_prefix (value : Str) (ll lc pl pc : Int) : cutValue value ll lc
       rw [← hrest, List.flatten_append] at this
       exact ⟨_, this⟩
     exact h1.trans h2
+
+/-! ## the argument scan behind `Signature.index` and keyword completion
+
+`helpers._iter_arguments` walks whatever stands between the opening bracket of the call and the
+cursor — half-typed code — and reads `.value` of nodes at seven places.  A parso `BaseNode` has
+no such attribute.  The translator lists every read with the tests that dominate it
+(`Gen.C01.iaReads`); the model (`Model/IterArgs`) raises `AttributeError` exactly where an
+unprotected read meets a non-leaf. -/
+
+section IterArgs
+open JediModel.IterArgs
+
+/-- every `.value` read of `_iter_arguments` in the working tree is dominated by a test on the
+same object that only a leaf passes (`x.type == 'name'`, `isinstance(x, tree.PythonLeaf)`,
+`x == '<str>'`, `x in ('<str>', …)`).  Dropping one of the tests makes this fail. -/
+theorem iter_arguments_value_reads_guarded :
+    ∀ site ∈ [1, 2, 3, 4, 5, 6, 7], siteGuarded JediModel.Gen.C01.iaReads site = true := by decide
+
+/-- so the model instantiated from the source is the fully guarded one -/
+theorem iter_arguments_source_guards : sourceGuards = stdGuards := by decide
+
+/-- the `if` tests and `yield` expressions the model transcribes, as they stand in the source -/
+theorem gen_iter_arguments_shape :
+    JediModel.Gen.C01.iaTests =
+      ["nodes_before[-1].type == 'arglist'", "not previous_node_yielded", "name.type != 'name'",
+       "node.type == 'argument'", "nodes_before[-1].type == 'name'", "second == '='",
+       "node.type == 'testlist_star_expr'",
+       "second.start_pos < position and first.type == 'name'", "first in ('*', '**')",
+       "isinstance(node, tree.PythonLeaf) and node.value == ','",
+       "first_leaf.type == 'name' and first_leaf.start_pos >= position", "n.type == 'star_expr'",
+       "not previous_node_yielded",
+       "isinstance(node, tree.PythonLeaf) and node.value in ('*', '**')",
+       "node == '=' and nodes_before[-1]", "before.type == 'name'"] ∧
+    JediModel.Gen.C01.iaYields =
+      ["_iter_arguments(nodes_before[-1].children, position)",
+       "(stars_seen, remove_after_pos(nodes_before[-1]), False)", "(stars_seen, '', False)",
+       "(0, first.value, True)", "(0, remove_after_pos(first), False)",
+       "(len(first.value), remove_after_pos(second), False)",
+       "(stars_seen, remove_after_pos(n), False)", "(0, remove_after_pos(first_leaf), False)",
+       "(0, None, False)", "(stars_seen, '', False)", "(0, before.value, True)",
+       "(0, None, False)"] := ⟨rfl, rfl⟩
+
+/-- `iterArguments_total`: the scan as written in the source never raises — no `AttributeError`
+from a `.value`, no `IndexError` from `children[k]` / `nodes_before[-1]` — on EVERY list of
+well-formed parso nodes (`WF`: leaves have a value; inner nodes are not `name`s, have a first
+child at their own position; `argument` / `star_expr` have two children) one of which starts
+before the cursor, whatever the node types, values, nesting and cursor are.  `depthList nodes + 1`
+is fuel enough for the recursion into the last `arglist`. -/
+theorem iterArguments_total (pos : IterArgs.Pos) (nodes : List Node) (hwf : ∀ n ∈ nodes, WF n)
+    (hex : ∃ n ∈ nodes, n.start.lt pos = true) :
+    ∃ ts, iterArguments sourceGuards pos (depthList nodes + 1) nodes = .ok ts := by
+  rw [iter_arguments_source_guards]
+  exact iterArguments_std_total pos _ nodes (Nat.lt_succ_self _) hwf hex
+
+/-- more fuel changes nothing: any bound above the depth works -/
+theorem iterArguments_total_fuel (pos : IterArgs.Pos) (fuel : Nat) (nodes : List Node)
+    (hd : depthList nodes < fuel) (hwf : ∀ n ∈ nodes, WF n)
+    (hex : ∃ n ∈ nodes, n.start.lt pos = true) :
+    ∃ ts, iterArguments sourceGuards pos fuel nodes = .ok ts := by
+  rw [iter_arguments_source_guards]
+  exact iterArguments_std_total pos fuel nodes hd hwf hex
+
+/-- the nodes of `f(a.x =` with the cursor at the end, as `get_signature_details` hands them
+over: `(`, the `atom_expr` `a.x`, the operator `=` -/
+def typedEqAfterAttribute : List Node :=
+  [ .mk ['o', 'p', 'e', 'r', 'a', 't', 'o', 'r'] (some ['(']) true true (1, 1) [],
+    .mk ['a', 't', 'o', 'm', '_', 'e', 'x', 'p', 'r'] none false false (1, 2)
+      [ .mk sName (some ['a']) false true (1, 2) [],
+        .mk ['t', 'r', 'a', 'i', 'l', 'e', 'r'] none false false (1, 3)
+          [ .mk ['o', 'p', 'e', 'r', 'a', 't', 'o', 'r'] (some ['.']) true true (1, 3) [],
+            .mk sName (some ['x']) false true (1, 4) [] ] ],
+    .mk ['o', 'p', 'e', 'r', 'a', 't', 'o', 'r'] (some ['=']) true true (1, 6) [] ]
+
+/-- the guard in front of `before.value` is necessary: without it the scan of `f(a.x =` raises
+`AttributeError` (kernel-checked); with it the answer is `(0, None, False)` -/
+theorem iterArguments_unguarded_eq_raises :
+    iterArguments { stdGuards with eqBefore := false } (1, 7) 4 typedEqAfterAttribute
+      = .error .attributeError ∧
+    iterArguments sourceGuards (1, 7) 4 typedEqAfterAttribute = .ok [⟨0, none, false⟩] := by
+  exact ⟨rfl, rfl⟩
+
+/-- hypotheses of `iterArguments_total` are satisfiable by that input -/
+example : (∀ n ∈ typedEqAfterAttribute, WF n) ∧ ∃ n ∈ typedEqAfterAttribute, n.start.lt (1, 7) = true := by
+  refine ⟨?_, ⟨_, List.mem_cons_self, by decide⟩⟩
+  intro n hn
+  simp only [typedEqAfterAttribute, List.mem_cons, List.mem_nil_iff, or_false] at hn
+  rcases hn with rfl | rfl | rfl
+  · exact WF.leaf _ _ _ _ _ (by decide)
+  · refine WF.node _ _ _ _ (by decide) rfl ?_ (by decide)
+    intro x hx
+    simp only [List.mem_cons, List.mem_nil_iff, or_false] at hx
+    rcases hx with rfl | rfl
+    · exact WF.leaf _ _ _ _ _ (by decide)
+    · refine WF.node _ _ _ _ (by decide) rfl ?_ (by decide)
+      intro y hy
+      simp only [List.mem_cons, List.mem_nil_iff, or_false] at hy
+      rcases hy with rfl | rfl <;> exact WF.leaf _ _ _ _ _ (by decide)
+  · exact WF.leaf _ _ _ _ _ (by decide)
+
+end IterArgs
 
 /-! non-vacuity -/
 example : validate spec (splitLines ['a', 'b', '\r', '\n', 'c', 'd']) (some 1) (some 2) = .ok 1 2 := by decide
